@@ -259,4 +259,6 @@ def run(repo, tier):
     ])
     from .common import run_cache_pure
     run_cache_pure(repo, res, modules=MODS)
+    from .common import run_generic_pack
+    run_generic_pack(repo, res, PROP, MODS)
     return res
